@@ -210,8 +210,19 @@ impl VersionManager {
         // Rename this tempfile to manifest
         let manifest_path = manifest_dir_path.join(MANIFEST_FILE_NAME);
         tokio::fs::rename(&temp_manifest_path, &manifest_path).await?;
+        // make the rename itself durable
+        self.sync_dir(manifest_dir_path).await?;
         manifest.reopen(&manifest_path).await?;
         Ok(epoch)
+    }
+
+    /// Persist the entries of a directory (fsync of the directory).
+    async fn sync_dir(&self, path: &Path) -> StorageResult<()> {
+        let options = &self.storage_options;
+        if !options.disable_all_disk_operation && !options.io_backend.is_in_memory() {
+            tokio::fs::File::open(path).await?.sync_data().await?;
+        }
+        Ok(())
     }
 
     /// Commit changes and return a new epoch number
@@ -321,6 +332,22 @@ impl VersionManager {
                     }
                 }
             }
+        }
+
+        // The record is about to refer to new RowSet directories and DV files. Their content has
+        // been synced, but a crash can still lose the directory entries that lead to them:
+        // persist those before the record.
+        if entries
+            .iter()
+            .any(|e| matches!(e, ManifestOperation::AddRowSet(_)))
+        {
+            self.sync_dir(&self.storage_options.path).await?;
+        }
+        if entries
+            .iter()
+            .any(|e| matches!(e, ManifestOperation::AddDV(_)))
+        {
+            self.sync_dir(&self.storage_options.path.join("dv")).await?;
         }
 
         #[cfg(risinglight_verif)]
